@@ -51,7 +51,7 @@ var c05QueryNames = []string{
 	"facebook.com", "www.google.com", "duckduckgo.com", "kid.verif.test",
 }
 
-func c05Families(ls *sysListServer) []c05Family {
+func c05Families(ls *sysListServer, upPort int) []c05Family {
 	return []c05Family{
 		{"clients", func(in *sysInst, rng *rand.Rand, i int) (int, []string) {
 			var f []string
@@ -60,9 +60,20 @@ func c05Families(ls *sysListServer) []c05Family {
 				"name": name, "ids": []string{fmt.Sprintf("127.0.0.%d", 10+i%4), fmt.Sprintf("cid-%d", i%4)},
 				"use_global_settings": i%2 == 0, "filtering_enabled": i%3 != 0, "parental_enabled": false,
 				"safebrowsing_enabled": false, "safesearch_enabled": false,
-				"safe_search": map[string]any{"enabled": false},
+				"safe_search":                 map[string]any{"enabled": false},
 				"use_global_blocked_services": i%2 == 1, "blocked_services": []string{"youtube"},
 				"tags": []string{}, "upstreams": []string{}, "ignore_querylog": i%5 == 0, "ignore_statistics": i%7 == 0,
+			}
+			// Per-client upstreams: none, the mock upstream, or a line that is
+			// valid only after trimming (whether such a line is accepted or
+			// refused, the server must go on serving that client).
+			switch i % 6 {
+			case 1:
+				cl["upstreams"] = []string{fmt.Sprintf("127.0.0.1:%d ", upPort)}
+			case 2:
+				cl["upstreams"] = []string{fmt.Sprintf("127.0.0.1:%d", upPort)}
+			case 4:
+				cl["upstreams"] = []string{fmt.Sprintf(" 127.0.0.1:%d", upPort), "  # comment"}
 			}
 			n := 0
 			if s := c05Call(in, "POST", "/control/clients/add", cl, 200, 400); s != "" {
@@ -699,7 +710,7 @@ func c05Round(rep *verifkit.Report, round int, loadDur time.Duration) {
 		malformedMu sync.Mutex
 		malformedW  []string
 	)
-	fams := c05Families(ls)
+	fams := c05Families(ls, up.Port)
 	famCalls := make([]atomic.Int64, len(fams))
 	famFails := make([]atomic.Int64, len(fams))
 	famMicros := make([]atomic.Int64, len(fams))
